@@ -143,7 +143,14 @@ func e2eDdnWorker(args []string) error {
 		switch k := rng.Intn(10); {
 		case k < 7:
 			s := ss[rng.Intn(len(ss))]
+
+			if rng.Intn(2) == 0 { // the datapath reports a burst of buffered packets of the session
+				w.ReportCopies = 2 + rng.Intn(40)
+				sum.Stats["report_burst"]++
+			}
+
 			w.Report("p1", s.up, []uint8{1, 1, 0}[rng.Intn(3)])
+			w.ReportCopies = 0
 		case k < 8:
 			w.Report("p1", unknown[rng.Intn(len(unknown))], 0)
 		case k < 9:
